@@ -487,7 +487,127 @@ def _explicit(r, acc=None):
         for x in r["a"]: _explicit(x, acc)
     return acc
 
+# ------------------------------------------------------------------------------------------- C09 / C18: call histories
+def _cc(c, *a, id="", d=""):
+    return {"c": c, "a": list(a), "id": id, "v": 0, "s": 0, "d": d}
+
+def api_catalog():
+    a, b, c, x, y = LEAF("a"), LEAF("b"), LEAF("c"), LEAF("x"), LEAF("y")
+    t03, t12 = LEAF("t", 0, 3), LEAF("t", 1, 2)
+    M1 = _R("All", _R("Any", a, b, id="B"), c, id="A")
+    M2 = _R("AtLeast", t03, b, id="R", v=2)
+    G1 = _R("Any", a, _R("Any", b, c))
+    CfgD = _cc("Cfg", _cc("ccAny", a, b, c, id="X", d="a"), id="cfg")
+    CfgP = _cc("Cfg", _R("Any", a, _R("Any", b, c), id="X"), id="cfg")          # the plain twin of CfgD (fixed finding D3)
+    Cfg3 = _cc("Cfg", _R("AtLeast", t03, b, id="R", v=2), id="cfg")
+    Cfg4 = _cc("Cfg", _R("AtLeast", t12, b, id="R", v=2), id="cfg")               # equal bound sums (fixed findings D3/D4)
+    CfgG = _cc("Cfg", _cc("ccXor", x, y, d="x"), _R("Imply", _R("All", x), LEAF("z")))
+    return {"M1": M1, "M2": M2, "G1": G1, "CfgD": CfgD, "CfgP": CfgP, "Cfg3": Cfg3, "Cfg4": Cfg4, "CfgG": CfgG}
+
+RULES = lambda: [_R("Any", LEAF("p"), LEAF("q"), id="P1"), _cc("ccAny", LEAF("p"), LEAF("q"), LEAF("a"), id="P2", d="p"),
+                 _cc("ccXor", LEAF("r"), LEAF("s"), d="r"), _R("Imply", _R("All", LEAF("a")), LEAF("q"), id="P3"),
+                 _R("Any", LEAF("a"), LEAF("q"), id="X"), _R("AtMost", LEAF("p"), LEAF("q"), LEAF("r"), v=1)]
+
+ALL_OPS = ["evaluate", "evaluate_all", "assume", "reduce", "negate", "errors", "to_json", "to_b64", "to_poly", "flatten",
+           "cfg_poly", "default_prios", "leafs", "select", "add"]
+
+def _fn_dict(d):
+    return {k: list(v) for k, v in d.items()} if isinstance(d, dict) else {}
+
+def api_histories(ctx, name, pairs, ops, maxlen, rules, dictvals=((0, 0), (0, 1)), deviations=(), expect_violation=None, dump=True):
+    u = {"Pairs": S([list(p) for p in pairs]), "Ops": set(ops), "DictVals": S(dictvals), "MaxLen": maxlen,
+         "Deviations": set(deviations), "RuleCat": {"$set": rules}}
+    if expect_violation:
+        d = os.path.join(ctx.work, "p1_" + name)
+        r = tlc.model_check(d, "PuanAPI", u, properties=["Purity"], name=name)
+        rec = {"module": "PuanAPI", "config": name, "constants": {"Deviations": sorted(deviations)}, "invariants": [], "properties": ["Purity"],
+               "states": r["stats"]["generated"], "distinct": r["stats"]["distinct"], "depth": r["stats"]["depth"], "wall_s": round(r["wall"], 1),
+               "ok": r["ok"], "violated": r["violated"], "expected": "violation of " + expect_violation}
+        ctx.p1.append(rec)
+        if r["ok"] or r["violated"] not in (expect_violation,):
+            raise Machinery("the as-implemented API machine (Deviations=%s) was expected to violate %s, TLC said: %s" % (sorted(deviations), expect_violation, r["violated"]))
+        return []
+    r = ctx.model_check("PuanAPI", u, invariants=["Determinism", "AddIsBuild"], properties=["Purity", "IdKept"], dump=dump, name=name)
+    hs, seen = [], set()
+    for st in tlc.dump_states(r["dump_path"], only={"hist", "rcp"}):
+        if len(st["hist"]) != maxlen: continue
+        key = json.dumps([st["hist"], st["rcp"]], sort_keys=True)
+        if key in seen: continue
+        seen.add(key)
+        hs.append(st)
+    os.remove(r["dump_path"])
+    return hs
+
+def history_cases(ctx, states, pairs_by_top):
+    """TLC histories -> driver cases; the handles' initial recipes are recovered from the first-call-free prefix: the spec's
+    rcp is the FINAL binding, so the initial pair is looked up by the (unchanged) top ids of its rules"""
+    cases = []
+    for st in states:
+        calls = [{"h": c["h"], "op": c["op"], "d": _fn_dict(c["d"]), "rule": c["rule"] if isinstance(c["rule"], dict) else None} for c in st["hist"]]
+        init = {}
+        for h in ("h1", "h2"):
+            r = st["rcp"][h]
+            n_add = sum(1 for c in calls if c["op"] == "add" and c["h"] == h)
+            # strip the rules appended by successful adds (each successful add appended exactly one rule at the end and fixed the id)
+            base = r
+            if n_add:
+                k = len(r["a"])
+                for cand in pairs_by_top:
+                    if cand["c"] == r["c"] and len(cand["a"]) <= k and r["a"][:len(cand["a"])] == cand["a"] and (cand["id"] == r["id"] or cand["id"] == ""):
+                        base = cand; break
+            init[h] = base
+        cases.append({"handles": init, "calls": calls})
+    return cases
+
+def run_histories(ctx, cases):
+    refs = ctx.pmap_fresh(drivers.drv_reference, cases)
+    for c, r in zip(cases, refs):
+        if not r or r[0].get("op") != "ref":
+            raise Machinery("reference run failed: %s" % (r,))
+        c["refs"] = r[0]["res"]
+    ctx.pmap(drivers.drv_history, _stamp(cases, "drv_history"))
+    ctx.validate()
+    # known findings: a KNOWN marker is only a finding if it is listed as open in known_findings.jsonl
+    listed = {k["signature"]: k for k in ctx.known_findings if k.get("status") == "open"}
+    ctx.known_printed = {}
+    for tid, sigs in ctx.known.items():
+        for sig in (sigs["$set"] if isinstance(sigs, dict) else sigs):
+            name = sig.replace("KNOWN_", "")
+            if name in listed:
+                ctx.known_printed[name] = "%s (%s): %s" % (listed[name].get("id", ""), name, listed[name]["what"][:160])
+            else:
+                ctx.rejects.setdefault(tid, []).append("store_unchanged")
+
+def run_c09(ctx):
+    q = ctx.tier == "quick"
+    cat = api_catalog()
+    pairs = [(cat["M1"], cat["CfgD"]), (cat["CfgD"], cat["CfgP"]), (cat["Cfg3"], cat["Cfg4"]), (cat["G1"], cat["M2"])]
+    if not q: pairs += [(cat["CfgP"], cat["CfgD"]), (cat["Cfg4"], cat["Cfg3"]), (cat["CfgG"], cat["M1"]), (cat["M1"], cat["M1"])]
+    rules = RULES()[:2] if q else RULES()[:4]
+    # the intended design is pure; the as-implemented machine (named deviation) is not: TLC finds the purity counterexample itself
+    api_histories(ctx, "API_as_implemented", pairs[:2], ["evaluate", "assume", "reduce"], 2, rules, deviations=["assume_own_id_leak"], expect_violation="Purity")
+    states = api_histories(ctx, "API_intended", pairs, ALL_OPS, 2, rules)
+    cases = history_cases(ctx, states, [p for pr in pairs for p in pr])
+    if q and len(cases) > 6000:
+        ctx.notes.append("quick tier replays a seeded sample of 6000 of the %d enumerated length-2 histories" % len(cases))
+        cases = ctx.rng.sample(cases, 6000)
+    run_histories(ctx, cases)
+
+def run_c18(ctx):
+    q = ctx.tier == "quick"
+    cat = api_catalog()
+    pairs = [(cat["CfgD"], cat["CfgG"])]
+    states = api_histories(ctx, "API_add", pairs, ["add", "cfg_poly"] if q else ["add", "cfg_poly", "select"], 3, RULES() if not q else RULES()[:5])
+    cases = history_cases(ctx, states, [cat["CfgD"], cat["CfgG"]])
+    cases = [c for c in cases if any(x["op"] == "add" for x in c["calls"])]
+    if q and len(cases) > 2500:
+        ctx.notes.append("quick tier replays a seeded sample of 2500 of the %d enumerated add histories" % len(cases))
+        cases = ctx.rng.sample(cases, 2500)
+    run_histories(ctx, cases)
+
 PROPS = {
+    "C09": {"run": run_c09, "clauses": {"store_unchanged", "no_unexplained_overwrite", "result_as_fresh", "old_unchanged", "no_exception"}},
+    "C18": {"run": run_c18, "clauses": {"refused_iff_clash", "is_direct_build", "id_kept", "old_unchanged", "no_exception"}},
     "C13": {"run": run_c13, "clauses": {m + ":" + c for m in drivers.METHODS for c in ("shape", "exact", "prio_dense", "rank_dense", "zeros_signs", "ties", "order", "dominance", "unknown_method")} | {"no_exception"}},
     "C14": {"run": run_c14, "clauses": {"ranks", "opt_same", "poly_is_own", "objective_count", "no_exception"}},
     "C15": {"run": run_c15, "clauses": {"poly_is_own", "objective_count", "objective_by_id", "ids_aligned", "optimal", "model_true", "raises_infeasible", "no_exception"}},
